@@ -52,6 +52,12 @@ def cases(tier, seed):
         cs.append({'t': 'texts', 'texts': texts[i:i + B], 'eol': ['\n', '\r\n'][(i // B) % 2], 'text_eol': ['\n', '\n', '\r\n'][(i // B) % 3], 'final': (i // B) % 3 != 0,
                    'hash': list(sigwork.HASHES)[(i // B) % 6],
                    'signers': SIGNERS[(i // B) % 4:(i // B) % 4 + 1 + ((i // B) % 5 == 0)]})
+    # every one-line text (and the empty one) under every combination of transport line ending and final line ending
+    singles = [[l] for l in ALPHABET] + [['only line']]
+    for j in range(0, len(singles), B):
+        for eol in ('\n', '\r\n'):
+            for final in (False, True):
+                cs.append({'t': 'texts', 'texts': singles[j:j + B], 'eol': eol, 'text_eol': '\n', 'final': final, 'hash': list(sigwork.HASHES)[(j // B) % 6], 'signers': SIGNERS[(j // B) % 4:(j // B) % 4 + 1]})
     hs = list(sigwork.HASHES)
     for j in range(12 if tier == 'quick' else 200):
         n = 2 + j % 2
